@@ -174,7 +174,10 @@ func (vfRandReader) Read(p []byte) (int, error) {
 // from the model relative to the real clock, so that "continuous or not" replays faithfully.
 func vfRecentMilli(name string) int64 {
 	gap := int64(vfVal("unixms1")) - int64(vfVal(name))
-	if gap < 0 || gap > 1000 {
+	if gap < 0 {
+		gap = 0 // the model put the previous packet "after" this one: continuous either way
+	}
+	if gap > 1000 {
 		gap = 1000
 	}
 	return time.Now().UnixMilli() - gap
@@ -197,6 +200,7 @@ var vfUnixCalls int
 
 func vfNativeSetup() {
 	vfUnixCalls = 0
+	DefaultSnmp.Reset() // the counters are process-wide; under gse every path starts from fresh globals
 	SetEntropy(vfRandReader{})
 }
 
